@@ -168,11 +168,36 @@ pub fn payload(uid: u32, idx: u32, len: usize) -> Vec<u8> {
             o += 64;
         }
     }
+    if uid & FRAME_LIKE != 0 {
+        // "frame-like" payload: every 64 bytes a complete, checksummed Full frame holding an AppendRecords entry
+        // for the non-existing queue "zz". A reader that ever resumes parsing inside a payload delivers it.
+        let mut o = ((uid >> 24) & 63) as usize;
+        while o + 48 <= len {
+            let mut entry = Vec::with_capacity(41);
+            entry.push(4u8);
+            entry.extend_from_slice(&(8_000_000u64 + o as u64).to_le_bytes());
+            entry.extend_from_slice(&2u16.to_le_bytes());
+            entry.extend_from_slice(b"zz");
+            entry.extend_from_slice(&(8_000_000u64 + o as u64).to_le_bytes());
+            entry.extend_from_slice(&8u32.to_le_bytes());
+            entry.extend_from_slice(b"FORGEDzz");
+            let mut h = crc32fast::Hasher::new();
+            h.update(&[1u8]);
+            h.update(&entry);
+            out[o..o + 4].copy_from_slice(&h.finalize().to_le_bytes());
+            out[o + 4..o + 6].copy_from_slice(&(entry.len() as u16).to_le_bytes());
+            out[o + 6] = 1;
+            out[o + 7..o + 7 + entry.len()].copy_from_slice(&entry);
+            o += 64;
+        }
+    }
     out
 }
 
 /// uid flag: entry-like payload (see `payload`); bits 24..29 carry the phase of the 64-byte grid.
 pub const ENTRY_LIKE: u32 = 1 << 31;
+/// uid flag: frame-like payload (see `payload`); same phase bits.
+pub const FRAME_LIKE: u32 = 1 << 30;
 
 #[derive(Clone, Copy, Debug, PartialEq, Eq, PartialOrd, Ord, Hash, Serialize, Deserialize)]
 pub struct Rec {
@@ -374,8 +399,8 @@ impl Obs {
         let mut d = crate::prng::Digest::new();
         for (name, q) in &self.queues {
             d.str(name);
-            d.u64(q.last_position.map(|p| p + 1).unwrap_or(0));
-            d.u64(q.summary_end.map(|p| p + 1).unwrap_or(0));
+            d.u64(q.last_position.map(|p| p.wrapping_add(1)).unwrap_or(0));
+            d.u64(q.summary_end.map(|p| p.wrapping_add(1)).unwrap_or(0));
             d.u64(q.last_record.map(|r| r.hash ^ r.pos).unwrap_or(7));
             for r in &q.recs {
                 d.u64(r.pos);
